@@ -91,3 +91,38 @@ fn c14_failed_enter_leaves_no_tokenised_line() {
         assert!(args.is_empty(), "dispatched arguments {:?}", args);
     }
 }
+
+/// C06 / C13 (F5): application output written while the cursor is inside the line:
+/// afterwards the terminal must show prompt + line with the cursor where the editor
+/// has it, so that the next typed character appears where it is inserted.
+#[test]
+fn c06_cursor_restored_after_write_and_set_prompt() {
+    use vp::term::{TermSink, BLANK};
+    for use_set_prompt in [false, true] {
+        let mut cli = CliBuilder::default()
+            .writer(TermSink::<16>::blank())
+            .command_buffer([0u8; 8])
+            .history_buffer([0u8; 8])
+            .prompt("$ ")
+            .build()
+            .unwrap();
+        let mut p = RawCommand::processor(|_h: &mut CliHandle<'_, TermSink<16>, core::convert::Infallible>, _c: RawCommand<'_>| Ok(()));
+        for &b in b"ab\x1b[D" {
+            cli.process_byte::<RawCommand<'_>, _>(b, &mut p).unwrap();
+        }
+        if use_set_prompt {
+            cli.set_prompt("> ").unwrap();
+        } else {
+            cli.write(|w| w.write_str("x")).unwrap();
+        }
+        cli.process_byte::<RawCommand<'_>, _>(b'c', &mut p).unwrap();
+        let (buf, cursor, valid) = cli.__verif_editor().unwrap().__verif_parts();
+        assert_eq!(&buf[..valid], b"acb");
+        let t = cli.__verif_writer();
+        assert!(!t.bad);
+        let row: String = t.cells.iter().map(|&c| char::from_u32(c).unwrap()).collect();
+        let prompt = if use_set_prompt { "> " } else { "$ " };
+        assert_eq!(row.trim_end_matches(char::from_u32(BLANK).unwrap()), format!("{}acb", prompt), "terminal row (set_prompt={})", use_set_prompt);
+        assert_eq!(t.col, 2 + cursor, "terminal cursor column");
+    }
+}
